@@ -316,8 +316,16 @@ def run_harness(ctx, pkg, test, ops, timeout=900, extra_env=None, race=False, ta
     cmd.append("./" + pkg + "/")
     # cmd/keymasterd's own dependency_monitor_test.go init() listens on a fixed port: two test
     # binaries of that package must never run at the same time on this machine -> global flock.
-    with GlobalLock("/tmp/.verif-gotest.lock"):
-        rc, log = sh(cmd, cwd=REPO, env=env, timeout=timeout + 120)
+    for attempt in range(4):
+        with GlobalLock("/tmp/.verif-gotest.lock"):
+            rc, log = sh(cmd, cwd=REPO, env=env, timeout=timeout + 120)
+        # a test binary started outside this lock (baseline run, another tool) may hold the port:
+        # that is an environment collision, not a result -> retry
+        if rc != 0 and not os.path.exists(out_path) and (
+                "dependency_monitor_test.go" in log or "address already in use" in log):
+            time.sleep(3 + 4 * attempt)
+            continue
+        break
     lines = []
     if os.path.exists(out_path):
         lines = open(out_path).read().split("\n")
